@@ -356,6 +356,15 @@ def main(argv):
     else:
         proved = c.prove("C16")
 
+    if proved and not quick:
+        cmd = ["timeout", "900", "coqchk", "-silent", "-o", "-Q", ".", "GV", "GV.Properties.C16"]
+        rc, out = vcheck.run(cmd, cwd=vcheck.COQ, timeout=1000)
+        c.checker_cmds.append("cd coq && " + " ".join(cmd))
+        if rc != 0 or "Axioms: <none>" not in out:
+            c.fail_obligation("coqchk GV.Properties.C16", out[-1500:])
+        else:
+            c.notes.append("coqchk -o GV.Properties.C16: Axioms: <none>; no type-in-type, unsafe fixpoints or assumed positivity")
+
     # ---- 3: harness
     binary, blog = c.go_build("c16")
     if binary is None:
@@ -413,8 +422,8 @@ def main(argv):
     if not cases:
         for w in CORPUS:
             cases.append({"name": w["name"], "store": w["store"], "scheme": "simple", "mode": "seq", "profile": "corpus", "ops": w["ops"]})
-        n_seq = 40 if quick else 400
-        n_conc = 30 if quick else 250
+        n_seq = 60 if quick else 1000
+        n_conc = 40 if quick else 500
         for st in STORES:
             for j in range(n_seq):
                 profile = "free" if j % 3 == 2 else "guarded"
